@@ -1,0 +1,46 @@
+//go:build verif
+
+package sack
+
+import (
+	"net/netip"
+
+	"github.com/DataDog/datadog-traceroute/common"
+	"github.com/DataDog/datadog-traceroute/packets"
+)
+
+// VerifNewDriver constructs the real sackDriver over a given Source/Sink.
+func VerifNewDriver(params Params, localAddr netip.Addr, sink packets.Sink, source packets.Source) (common.TracerouteDriver, error) {
+	return newSackDriver(params, localAddr, sink, source)
+}
+
+// VerifReadHandshake runs the real ReadHandshake.
+func VerifReadHandshake(d common.TracerouteDriver, localPort uint16) error {
+	return d.(*sackDriver).ReadHandshake(localPort)
+}
+
+// VerifState is the handshake-derived state of a sackDriver.
+type VerifState struct {
+	LocalPort    uint16
+	LocalInitSeq uint32
+	LocalInitAck uint32
+	HasTS        bool
+	TSValue      uint32
+	TSEcr        uint32
+}
+
+// VerifGetState reads the handshake-derived state; ok=false before the handshake finished.
+func VerifGetState(d common.TracerouteDriver) (VerifState, bool) {
+	s := d.(*sackDriver)
+	if s.state == nil {
+		return VerifState{LocalPort: s.localPort}, false
+	}
+	return VerifState{s.localPort, s.state.localInitSeq, s.state.localInitAck, s.state.hasTS, s.state.tsValue, s.state.tsEcr}, true
+}
+
+// VerifSetState installs a handshake state directly (as FakeHandshake does with constants).
+func VerifSetState(d common.TracerouteDriver, st VerifState) {
+	s := d.(*sackDriver)
+	s.localPort = st.LocalPort
+	s.state = &sackTCPState{localInitSeq: st.LocalInitSeq, localInitAck: st.LocalInitAck, hasTS: st.HasTS, tsValue: st.TSValue, tsEcr: st.TSEcr}
+}
